@@ -496,6 +496,14 @@ CommitSpRaises(f) ==
   /\ cm.pc = "begun" /\ tmp.on /\ "own" \in Ops /\ f \notin Blobs
   /\ LET r == FlushFails(B, f) IN r.ok /\ Failed(r.b, FALSE)
 
+\* ... the copy loop of _commit_savepoint raises at the record of object o (a storage error other than a conflict:
+\* injected at the k-th store).  _modified and _creating were filled BEFORE the loop, so whatever the position of
+\* the failing record every object of the savepoint store is invalidated / disowned by the clean-up.
+CommitSpStoreRaises(o) ==
+  /\ cm.pc = "begun" /\ tmp.on /\ "own" \in Ops /\ o \notin Blobs
+  /\ LET b == SavepointOp(B) IN
+     o \in IdxSet(b.tmp.index) /\ SpConflicts(b) = {} /\ Failed(SpPrepared(b), FALSE)
+
 CommitSpConflict ==
   /\ cm.pc = "begun" /\ tmp.on
   /\ LET b == SavepointOp(B) IN SpConflicts(b) # {} /\ Failed(SpPrepared(b), FALSE)
@@ -539,6 +547,7 @@ OtherCommit(o) ==
 Next ==
   \/ \E o \in All : (\E v \in Val : Modify(o, v)) \/ Load(o) \/ AddExplicit(o) \/ OtherCommit(o)
                     \/ Store(o) \/ StoreRaises(o) \/ StoreConflict(o) \/ SavepointRaises(o) \/ CommitSpRaises(o)
+                    \/ CommitSpStoreRaises(o)
   \/ \E e \in Edges : Link(e[1], e[2]) \/ Unlink(e[1], e[2])
   \/ Savepoint \/ (\E k \in 1..MaxSp : Rollback(k))
   \/ Begin \/ Stored \/ CommitSp \/ CommitSpConflict \/ Vote \/ Finish
